@@ -1014,7 +1014,7 @@ impl Prop for C15Supplied {
         (
             prop_oneof![
                 3 => gen::placement(20).prop_map(|r| gen::build(&r).fen()),
-                2 => gen::castle_theme().prop_map(|r| gen::build(&r).fen()),
+                4 => gen::castle_theme().prop_map(|r| gen::build(&r).fen()),
                 2 => gen::cage_theme().prop_map(|r| gen::build(&r).fen()),
                 2 => gen::endgame(4).prop_map(|r| gen::build(&r).fen()),
                 1 => gen::promo_theme().prop_map(|r| gen::build(&r).fen()),
@@ -1033,7 +1033,7 @@ impl Prop for C15Supplied {
             .boxed()
     }
     fn cases(&self, tier: Tier) -> u32 {
-        tier.pick(240, 6_000)
+        tier.pick(480, 12_000)
     }
     fn test(&self, c: &SuppliedCase, st: &mut Stats) -> TestResult {
         let mut shuffle_moves: Vec<Mv> = Vec::new();
@@ -1103,6 +1103,19 @@ impl Prop for C15Supplied {
         for _ in 0..3 {
             st.count("engine_calls", 1);
             ask_engine(&mut game, &pos, "on a supplied position")?;
+        }
+        // the same Game asked about the same placement with the other side to move
+        // (a position supplied through board_mut().set_turn)
+        if !c.shuffle && c.sels.len() % 2 == 1 {
+            let mut flipped = pos.clone();
+            flipped.side = pos.side.other();
+            if flipped.consistent().is_ok() && pos.ep.is_none() {
+                game.board_mut().set_turn(to_color(flipped.side));
+                st.label("same-game-other-side-to-move");
+                st.count("engine_calls", 1);
+                ask_engine(&mut game, &flipped, "on the same supplied placement with the other side to move")?;
+                game.board_mut().set_turn(to_color(pos.side));
+            }
         }
         for s in &c.sels {
             let legal = pos.legal_moves();
